@@ -54,7 +54,7 @@ CFG = {
     },
     "gaps": [
         'C13_no_panic and C13_reads_declared (rest is a suffix, value independent of it, shorter input is EOF) are proved in full for every byte string',
-        'C13_32_partial: ok => BitmapWF is proved modulo ONE named kernel hypothesis, Kernel.runStore_wf (replaying any run list through Store::insert_range from with_capacity and ensure_correct_store gives a WF store or the empty array); header, array chunks (sortedness, 16-bit, 1..4096), bitset chunks (1024 words < 2^64, cached len = popcount > 4096), key order and emptiness are proved. The hypothesis is checked at run time (wf= / !WF) on every decoded stream',
+        'no proof gap: C13_32 (ok => Bitmap.WF value and rest is a suffix; error => not a panic) is proved unconditionally for every byte string; the former kernel hypothesis Kernel.runStore_wf is discharged (Lemmas/CodecKernel.lean: runStore_wf, from Store.insertRange_spec and Container.ensureCorrectStore_spec; an empty run list gives the empty array, which the checked decoder rejects); C13_reserialize: an accepted value has a strictly ascending u32 element list with chunk-wise membership and re-serialises to a stream that every decoder configuration decodes to the same value',
         "the corollary 'every observer of a WF value is consistent' rests on C01/C03/C04/C07 (other families)",
         'the RoaringTreemap decoder is handled by the treemap family',
     ],
@@ -62,7 +62,7 @@ CFG = {
                   "well-formed value together with a suffix of the input (never a panic, never a read past the declared "
                   "structure); tied to the Rust source by differential correspondence on single-field corruptions of valid "
                   "streams and random byte strings, with a property oracle that tolerates a stricter implementation.",
-    "level_note": "Trusted: Lean kernel; WF (Lemmas/CodecWF.lean) as the meaning of 'well-formed set'; model mirrors "
+    "level_note": "Trusted: Lean kernel; Bitmap.WF (Inv.lean) as the meaning of 'well-formed set'; model mirrors "
                   "serialization.rs (correspondence only); the harness-side observer check `consistent()` as the reading of "
                   "'every observer agrees'. 32-bit half only.",
 }
